@@ -119,15 +119,19 @@ def gen(rng, idx, tier):
 
 
 N_ITER_FAMILY = 96
+N_MIXED_FAMILY = 48
 
 
 def enumerated_count(tier):
     # exhaustive sweep over all off-diagonal sparsity patterns of small general matrices (first update, flags explicit), then a
     # fixed family of histories for an *iterative* inner solver: a block with dependent columns and an initial guess (the columns'
     # solutions differ by the solver's accuracy, not by rounding), followed by new, scaled and repeated right-hand sides
+    # ... and a family of mixed real / complex histories on one real matrix: complex pairs are stored first, real right-hand sides
+    # cannot use them, so a real vector that is nearly parallel to a stored complex one is orthogonalised with heavy cancellation
+    # (case 0 of the family is the literal history of fixed finding C06-F7)
     if tier == "thorough":
-        return 64 + N_ITER_FAMILY + 4096
-    return 64 + N_ITER_FAMILY
+        return 64 + N_ITER_FAMILY + N_MIXED_FAMILY + 4096
+    return 64 + N_ITER_FAMILY + N_MIXED_FAMILY
 
 
 def enumerated_case(i, tier):
@@ -143,8 +147,20 @@ def enumerated_case(i, tier):
                             coef=[[1.5, 0.0], [-0.5, 0.0], [0.7, 0.0]], x0="none"))
         return dict(n=[40, 60, 24, 48][j % 4], cls="hpd" if cplx else "spd", cplx=cplx, inner="cg", sparse=["csc", None, "csc_full"][j % 3],
                     flags="explicit", tol=1e-7, nwr=1, ops=ops, cg_tol=[1e-10, 1e-9][(j // 4) % 2])
+    if 64 + N_ITER_FAMILY <= i < 64 + N_ITER_FAMILY + N_MIXED_FAMILY:
+        j = i - 64 - N_ITER_FAMILY
+        sd = (lambda q: [527734969, 592492115, 839490429, 873106700, 262143286, 839635873, 290121255][q]) if j == 0 else \
+            (lambda q: 77000 + 10 * j + q)
+        cf = [[0.47, 1.1], [-1.74, -0.075], [0.73, 1.44]]
+        ops = [dict(op="update", w=0, seed=sd(0), pattern="banded", scale=[1e5, 1.0, 1e-3][j % 3] if j else 1e5)]
+        for q, (kind, trans, cpx, refs) in enumerate([("fresh", "N", False, [14, 29, 57]), ("block", "H", True, [20, 33, 59]),
+                                                      ("scaledblock", "N", False, [54, 60 + j, 21]), ("combo", "N", False, [55, 20, 44]),
+                                                      ("block", "N", False, [46, 19, 49]), ("fresh", "N", True, [10, 55, 47])]):
+            ops.append(dict(op="solve", w=0, kind=kind, trans=trans, seed=sd(q + 1), cplx=cpx, k=0, refs=refs, coef=cf, x0="none"))
+        return dict(n=22 if j == 0 else [22, 12, 30, 16][j % 4], cls="spd", cplx=False, inner=["chol", "lu", "ldl"][j % 3] if j else "chol",
+                    sparse=None, flags="explicit", tol=1e-9, nwr=1, ops=ops)
     if i >= 64 + N_ITER_FAMILY:
-        i -= N_ITER_FAMILY
+        i -= N_ITER_FAMILY + N_MIXED_FAMILY
     if i < 64:
         n, bits = 3, i
     else:
@@ -307,7 +323,9 @@ def run(case):
     if nwr == 2:
         probe("two_wrappers")
     mdesc = dict(n=n, cls=case["cls"], cplx=case["cplx"], sparse=case["sparse"])
-    bound = 10 * max(case["tol"], inner_accuracy(case))
+    # the wrapper accepts a projected answer only when its relative residual is <= tol and otherwise lets the inner solver finish:
+    # every answer is good to max(tol, inner accuracy); factor 2 for the rounding of two residual evaluations
+    bound = 2 * max(case["tol"], inner_accuracy(case))
     detail = []
 
     for at, op in enumerate(case["ops"]):
